@@ -272,7 +272,16 @@ def run_coq_cases(tag, preamble, case_terms, checker, shard=400, timeout=1800):
     """Evaluate  `checker [case; ...]`  in Coq with vm_compute, sharded over coqc
     processes.  `checker : list T -> list (N * R)` returns the mismatching
     cases (index, what the model computed).  Returns (list of (index, text), errors)."""
-    d = os.path.join(CACHE, "cases", tag)
+    base = os.path.join(CACHE, "cases")
+    os.makedirs(base, exist_ok=True)
+    for f in os.listdir(base):      # drop the case dirs of finished runs
+        try:
+            pid = int(f.rsplit("_", 1)[1])
+            if pid != os.getpid() and not os.path.exists("/proc/%d" % pid):
+                shutil.rmtree(os.path.join(base, f), ignore_errors=True)
+        except (ValueError, IndexError, OSError):
+            pass
+    d = os.path.join(base, "%s_%d" % (tag, os.getpid()))
     shutil.rmtree(d, ignore_errors=True)
     os.makedirs(d)
     shards = [case_terms[i:i + shard] for i in range(0, len(case_terms), shard)]
@@ -434,8 +443,16 @@ def _build_harness_locked(crate, prop, extra_args):
 def run_harness(exe, prop, lines, crate_dir, timeout=3000, env=None):
     d = os.path.join(CACHE, "io")
     os.makedirs(d, exist_ok=True)
-    fin = os.path.join(d, prop + ".in")
-    fout = os.path.join(d, prop + ".out")
+    # keyed by pid: two checks of the same property (e.g. /repo and a scratch worktree) may run at once
+    fin = os.path.join(d, "%s_%d.in" % (prop, os.getpid()))
+    fout = os.path.join(d, "%s_%d.out" % (prop, os.getpid()))
+    for f in os.listdir(d):
+        try:
+            pid = int(f.rsplit(".", 1)[0].rsplit("_", 1)[1])
+            if pid != os.getpid() and not os.path.exists("/proc/%d" % pid):
+                os.remove(os.path.join(d, f))
+        except (ValueError, IndexError, OSError):
+            pass
     with open(fin, "w") as f:
         for l in lines:
             f.write(l + "\n")
